@@ -73,3 +73,16 @@ Example C09_ex :
                                (Ok {| p_pre := []; p_fwd := Some ex_internal |}) |} []) = OAckOk /\
   snd (step_msg ex_cfg ex_fee_paused authority_address (MPauseAction "ACTION_FEE") []) = OutMsg 1 [].
 Proof. vm_compute. repeat split; reflexivity. Qed.
+
+(* ---------- on ANY chain, whatever its Hyperlane hooks charge for gas: a transfer that is executed there is
+   executed on the chain without charging hooks too (C05_requests_any_hooks), so the gate holds as it stands ---------- *)
+From Orbiter Require Import Proofs.GasHistories.
+Theorem C09_gate_any_hooks : forall g cfg e w p tape,
+  rr_out (recv_gas g cfg e w p tape 0) = OAckOk ->
+  exists denom amount sender receiver pl,
+    pk_data p = PIcs denom amount sender receiver (Ok pl) /\
+    (p_pre pl = [] \/ exists infos, p_pre pl = [fee_action infos] /\
+                                    smem cmp_z action_fee (paused_actions (w_o w)) = false /\
+                                    existsb (Z.eqb action_fee) (cfg_action_routes cfg) = true).
+Proof. intros g cfg e w p tape H. apply (success_actions cfg e w p tape). exact (proj1 (success_trace_hooks g cfg e w p tape H)). Qed.
+Print Assumptions C09_gate_any_hooks.
